@@ -1,5 +1,5 @@
 # replay of a bounded stand-in violation (C09/C10): re-run native/c09_engine.py
 import sys
-print('C10: q*conjugate(q) of a measured parameter with outcome (0.3+0.4j) evaluates to (-0.07000000000000003+0.24j), the function of the outcome is (0.25+0j)')
+print("gaussian [Del q1, measure q2, feed q0; successor deletes the measured mode afterwards]: raised RuntimeError: Register mismatch: program 1, 'None'. (after [])")
 print('REPLAY-VIOLATION')
 sys.exit(1)
